@@ -102,6 +102,10 @@ def compressed_payload(fid, lid, parent, pcode, crc, n):
     if parent:
         v["Flags"] = tmpls.CompressedFlags.PARENT_ID
         v["ParentID"] = parent
+    if n % 3 == 0:
+        # every third announcement is of a spinning object: one more optional section, next to the parent link
+        v["Flags"] = v.get("Flags", tmpls.CompressedFlags(0)) | tmpls.CompressedFlags.ANGULAR_VELOCITY
+        v["AngularVelocity"] = Vector3(0.0, 0.0, 0.25 + (n % 7))
     w = se.BufferWriter("<")
     w.write(T, v)
     return w.copy_buffer()
